@@ -37,10 +37,10 @@ const KEEP: &[&str] = &[
     "America/Asuncion", "Australia/Sydney", "America/Scoresbysund", "Europe/Moscow", "Asia/Tokyo",
 ];
 
-fn zones(a: &Args, rng: &mut Rng) -> Vec<ZoneSrc> {
+fn zones(a: &Args, rng: &mut Rng, all_system: bool) -> Vec<ZoneSrc> {
     let mut all = tzcorpus::dedup(tzcorpus::system());
     let mut out: Vec<ZoneSrc> = Vec::new();
-    let want = if a.quick() { 44 } else { 10_000 };
+    let want = if a.quick() && !all_system { 44 } else { 10_000 };
     let mut rest = Vec::new();
     for z in all.drain(..) {
         if KEEP.contains(&z.name.as_str()) {
@@ -166,6 +166,20 @@ fn z_round(tz: &TimeZone, ts: Timestamp, ui: usize, k: i64, mi: usize, cls: &str
     json!({"op":"z_round","cls":cls,"zi":1,"z":zval(&z),"unit":uname,"k":big(k as i128),"mode":MODES[mi].1,"mf":mf,"res":zres(&r)})
 }
 
+fn z_text(tz: &TimeZone, ts: Timestamp, name: &str, cls: &str) -> Value {
+    let z = Zoned::new(ts, tz.clone());
+    let text = guard(|| z.to_string()).unwrap_or_default();
+    let re = guard(|| text.parse::<Zoned>());
+    let rename = match &re {
+        Ok(Ok(r)) => {
+            if r.time_zone().iana_name() == tz.iana_name() && (tz.iana_name().is_some() || r.time_zone() == tz) { 1 } else { 0 }
+        }
+        _ => 0,
+    };
+    json!({"op":"z_text","cls":cls,"zi":1,"z":zval(&z),"text":crate::text::codes(&text),"s":text,
+           "name":crate::text::codes(name),"re":zres(&re),"rename":rename})
+}
+
 fn hash_of(z: &Zoned) -> u64 {
     let mut h = std::collections::hash_map::DefaultHasher::new();
     z.hash(&mut h);
@@ -253,7 +267,8 @@ pub fn run_zoned(a: &Args, which: &str) {
     let stem = which.to_string();
     let mut out = Out::new(&a.out, &stem, 40_000);
     let mut rng = Rng::new(a.seed, 6);
-    let zs = zones(a, &mut rng);
+    // printing/parsing is cheap and every fold matters: the text driver takes every zone in both tiers
+    let zs = zones(a, &mut rng, which == "c09z");
     let loaded: Vec<(AZone, TimeZone, &ZoneSrc)> = zs
         .iter()
         .filter_map(|z| Some((tzcorpus::load(z).ok()?, jiff_zone(z).ok()?, z)))
@@ -266,7 +281,7 @@ pub fn run_zoned(a: &Args, which: &str) {
         // second zone for zone changes
         let (az2, tz2, src2) = &loaded[(zi * 7 + 3) % loaded.len()];
         out.emit(zone_slot(az2, &src2.class, 2));
-        let insts = instants(a, az, &mut rng, if quick { 36 } else { 400 });
+        let insts = instants(a, az, &mut rng, if quick && which != "c09z" { 36 } else if quick { 120 } else { 400 });
         match which {
             "c06" => {
                 for &(ts, cls) in &insts {
@@ -310,6 +325,39 @@ pub fn run_zoned(a: &Args, which: &str) {
                             out.emit(z_until(tz, ta, tb, ui, cls));
                         }
                     }
+                }
+            }
+            "c09z" => {
+                // only zones the global database knows under this name (the re-parse looks the name up)
+                let known = jiff::tz::db().get(&src.name).map(|t| &t == tz).unwrap_or(false);
+                if !known {
+                    continue;
+                }
+                let mut more: Vec<(Timestamp, &'static str)> = insts.clone();
+                // the first local time type (LMT, often a sub-minute offset) and both sides of every fold
+                if let Some(&(t0, _)) = az.trans.first() {
+                    for k in 1..6 {
+                        if let Some(ts) = mkts((t0 as i128 - k * 86_400 * 300) * 1_000_000_000 + 987_654_321) {
+                            more.push((ts, "lmt-period"));
+                        }
+                    }
+                }
+                for w in az.trans.windows(2) {
+                    let (t, ty) = w[1];
+                    let before = az.types[w[0].1].off;
+                    let after = az.types[ty].off;
+                    if after < before && (before % 60 != 0 || after % 60 != 0 || rng.chance(1, 6)) {
+                        // a fold: instants in both occurrences of the repeated wall-clock span
+                        let span = (before - after) as i128;
+                        for d in [-span + 1, -span / 2, -1, 0, span / 2, span - 1] {
+                            if let Some(ts) = mkts((t as i128 + d) * 1_000_000_000) {
+                                more.push((ts, if before % 60 != 0 || after % 60 != 0 { "fold-sub-minute" } else { "fold" }));
+                            }
+                        }
+                    }
+                }
+                for &(ts, cls) in &more {
+                    out.emit(z_text(tz, ts, &src.name, cls));
                 }
             }
             "c10z" => {
